@@ -90,11 +90,11 @@ fn check_script(case: &Script, probe: &mut Probe) -> Result<(), String> {
                 RepEnd::Hang(second) => {
                     HANG_CONFIRMED.store(true, SeqCst);
                     return fail(format!(
-                        "repetition {rep}: last-resort liveness bound exceeded twice in a row for the same script: {first} / again: {second}"
+                        "repetition {rep}: hang confirmed (twice in a row for the same script): {first} / again: {second}"
                     ));
                 }
                 other => {
-                    INCONCLUSIVE.lock().unwrap().push(format!("last-resort liveness bound exceeded once (not repeated): {first}"));
+                    INCONCLUSIVE.lock().unwrap().push(format!("hang seen once, not repeated on the immediate re-run: {first}"));
                     other
                 }
             };
@@ -134,6 +134,9 @@ fn check_script(case: &Script, probe: &mut Probe) -> Result<(), String> {
                 if st.samples > 0 {
                     probe.label("rep:sampled");
                 }
+                if st.chased {
+                    probe.label("rep:wake_chased_by_subinterval_advance");
+                }
                 if st.pause_unobserved {
                     probe.label("rep:paused_not_seen_within_2s");
                 }
@@ -145,7 +148,7 @@ fn check_script(case: &Script, probe: &mut Probe) -> Result<(), String> {
             }
             RepEnd::Violation(m) => return fail(format!("repetition {rep}: {m}")),
             RepEnd::Hang(m) => {
-                INCONCLUSIVE.lock().unwrap().push(format!("last-resort liveness bound exceeded on the retry only: {m}"));
+                INCONCLUSIVE.lock().unwrap().push(format!("hang seen on the re-run only: {m}"));
             }
             RepEnd::Infra(m) => {
                 INFRA.lock().unwrap().push(m);
